@@ -174,7 +174,7 @@ def check(case):
     fails = validate(case)
     if isinstance(case.side, dict) and "eq_regions" in case.side:
         fails += documented_refusals(case)
-    lab = {"nonorthogonal_spacing_method": None}
+    lab = {"nonorthogonal_spacing_method": None, "stratum": desc.get("stratum", "adversarial")}
     try:
         import yaml
 
